@@ -16,7 +16,8 @@ ID = "C09"
 LEVEL = "exploration"
 RULE = ("laid-out part: all ordered pairs of the vocabulary (every keyword, every punctuator, identifiers incl. '$', type "
         "names, every literal kind with suffix/prefix variants, '#pragma' lines) and random sequences of 1-60 vocabulary "
-        "tokens x layouts {single, one per line, random, tabs, minimal (no separator where C's longest match allows), "
+        "tokens (pragma lines drawn from 27 fixed texts - incl. every short substring of 'pragma', '#', linemarker- and literal-like "
+        "texts - and random compositions of those letters, blanks, tabs, brackets, quotes) x layouts {single, one per line, random, tabs, minimal (no separator where C's longest match allows), "
         "linemarkers/#line between arbitrary tokens}; progress part: every string of length <= 4 (quick) / <= 5 (thorough) "
         "over the 20-character alphabet a 0 1 8 x . ' \" \\ / * # + - < = space newline e L with a recording error callback. "
         "Non-trivial: >= 2 tokens / >= 2 characters; distinct by construction (exhaustive parts) or by text.")
